@@ -120,7 +120,7 @@ func DrawCorpus(t *rapid.T) CorpusEntry {
 	if len(c) == 0 {
 		return CorpusEntry{Source: "builtin", Text: "pass"}
 	}
-	return c[rapid.IntRange(0, len(c)-1).Draw(t, "corpus")]
+	return c[Uniform(t, len(c), "corpus")]
 }
 
 // ---- metadata from the analysed DAG (for programs the generator did not build)
